@@ -763,9 +763,21 @@ fn parse_expr_unaryop(
 
                     // Cast input expression to operator input type
                     let expr_ir = if expr_ty != op_input_ety {
-                        let cast =
-                            ImplicitConversion::find(expr_ty, op_input_ety, &mut context.module)
-                                .unwrap();
+                        let cast = match ImplicitConversion::find(
+                            expr_ty,
+                            op_input_ety,
+                            &mut context.module,
+                        ) {
+                            Ok(cast) => cast,
+                            // Matrices do not convert to a scalar bool
+                            Err(()) => {
+                                return Err(TyperError::UnaryOperationWrongTypes(
+                                    op.clone(),
+                                    ErrorType::Unknown,
+                                    base_location,
+                                ))
+                            }
+                        };
                         cast.apply(expr_ir, &mut context.module)
                     } else {
                         expr_ir
